@@ -160,6 +160,37 @@ Theorem failed_tx_effect_submitmsg :
 Proof. exact Handlers.failed_tx_effect_submitmsg_l. Qed.
 Print Assumptions failed_tx_effect_submitmsg.
 
+(* roothash submitEvidence (after the repair 583b4f4: hash record and slashing inside a
+   transaction layer, committed only on success) *)
+Theorem failed_tx_effect_submitevidence :
+  forall (k_rh_params : N) (k_rt_state : tx -> N) (cost : option val -> N -> N) (new_val : tx -> option val -> val)
+         (nonempty rt_state_usable : option val -> bool)
+         (k_evidence k_accused_node k_accused_acct k_caller_node : tx -> N) (validate_evidence : tx -> bool)
+         (rt_slashes : option val -> bool) (evidence_expired : option val -> option val -> tx -> bool)
+         (penalty_zero : option val -> bool) (slash_escrow : option val -> tx -> option val)
+         (slashed_nothing : option val -> tx -> bool) (distribute : option val -> tx -> prog)
+         (P : params) (dec : option tx) (size : N) (s : mstate) (e : N) (g : gasacc) (s' : mstate),
+  deliver P
+    (submitevidence_exec k_rh_params k_rt_state cost new_val nonempty rt_state_usable k_evidence k_accused_node
+       k_accused_acct k_caller_node validate_evidence rt_slashes evidence_expired penalty_zero slash_escrow
+       slashed_nothing distribute) dec size s = (Err e, g, s') ->
+  s' = s \/ (exists x : tx, dec = Some x /\ s' = post_auth_state s x).
+Proof. exact Handlers.failed_tx_effect_submitevidence. Qed.
+Print Assumptions failed_tx_effect_submitevidence.
+
+(* The order before the repair (hash stored through the received handle, no layer, then the
+   slashing fails for a key that is no registered node) is not atomic: the defect this check
+   found, kept as a refuted witness. *)
+Theorem submitevidence_old_order_refuted : ~ atomic (hrun evidence_old_handler false).
+Proof. exact evidence_old_not_atomic. Qed.
+Print Assumptions submitevidence_old_order_refuted.
+
+Theorem gen_submit_evidence_order :
+  submit_evidence_events = [8; 8; 1; 8; 8; 8; 8; 8; 8; 8; 8; 8; 8; 2; 7; 5; 8; 5; 8; 3] /\
+  layered_handler submit_evidence_events = true.
+Proof. exact gen_submit_evidence_order_l. Qed.
+Print Assumptions gen_submit_evidence_order.
+
 (* A state wrapper built from ctx.State() BEFORE NewTransaction() writes below the layer:
    submitMsg with that order (the seeded change C08-1) is not atomic. *)
 Theorem wrapper_built_before_layer_refuted : ~ atomic (hrun c08_1_handler false).
